@@ -275,8 +275,8 @@ def hostile_case(r):
             pb = (c["pb"][0] + r.choice([0, 0, 1, 2, 3, 5, c["W"], 2 ** 20, 2 ** 20 + 1, r.randrange(U32)])) % U32
             # group bases around (and just before) the frames this endpoint has sent so far; bitfields with
             # clear low bits so that a group can start before the log and still name a remembered frame
-            gs = " ".join("%d %d %d" % ((c["fb"][0] + r.choice([0, 0, 1, 2, 30, 31, 32, -1, -1, -2, -3, -31, -32, nflush - 1, nflush, r.randrange(-3, nflush + 3), r.randrange(U32)])) % U32,
-                                        r.choice([0, 1, 1, 3, 5, 7, 2, 2, 4, 6, 8, 12, 1 << r.randrange(32), 2 ** 31, U32 - 1, r.randrange(U32)]), r.randrange(2)) for _ in range(ng))
+            gs = " ".join("%d %d %d" % ((c["fb"][0] + r.choice([0, 0, 1, 2, 30, 31, 32, -1, -1, -2, -3, -31, -32, nflush - 1, nflush - 1, nflush - 2, nflush, r.randrange(-3, nflush + 3), r.randrange(-3, nflush + 3), r.randrange(U32)])) % U32,
+                                        r.choice([0, 1, 1, 3, 3, 5, 7, 7, 15, 2, 2, 4, 6, 8, 12, 1 << r.randrange(32), 2 ** 31, U32 - 1, r.randrange(U32)]), r.randrange(2)) for _ in range(ng))
             ops.append(("frame %d acks %d %d %d %s" % (e, fb, pb, ng, gs)).strip())
         elif k < 0.80:
             ops.append("send %d %d %d %d %d" % (e, r.randrange(64), r.randrange(4), pick_len(r, min(c["alloc"][1], 3 * F)), r.randrange(1000)))
